@@ -111,6 +111,7 @@ namespace verif
     s.go.erase(me);
     s.at.erase(me);
     --s.parked;
+    s.cv.notify_all();          // the scheduler waits for "has left its yield point"
   }
   inline std::string json_ints(const std::vector<int>& v)
   {
